@@ -1731,3 +1731,46 @@ async fn d42_open_that_fails_in_the_final_directory_sync_leaks_the_lock() {
 	}
 	panic!("D42: directory still locked 5 s after a FAILED open: {last}");
 }
+
+// D43: among committed versions of a key with the SAME timestamp, get_at returns the one committed FIRST: it scans
+// newest-first and replaces its candidate on `>=`.  `set k@10; soft-delete k@10` reads back the deleted value at T = 10,
+// and `set k@10 = A; set k@10 = B` reads A although get() and the history (newest first) say B.
+#[tokio::test(flavor = "multi_thread")]
+async fn d43_get_at_with_equal_timestamps_returns_the_overwritten_version() {
+	use crate::transaction::WriteOptions;
+	for with_index in [false, true] {
+		for flush_between in [false, true] {
+			let d = td();
+			let opts = mk_opts(d.path().to_path_buf(), |o| {
+				o.enable_versioning = true;
+				o.enable_vlog = true;
+				o.vlog_value_threshold = 0;
+				o.enable_versioned_index = with_index;
+			});
+			let tree = Tree::new(Arc::clone(&opts)).unwrap();
+			{
+				let mut tx = tree.begin().unwrap();
+				tx.set_at(b"k", b"A", 10).unwrap();
+				tx.set_at(b"d", b"old", 10).unwrap();
+				tx.commit().await.unwrap();
+			}
+			if flush_between {
+				tree.flush().unwrap();
+			}
+			{
+				let mut tx = tree.begin().unwrap();
+				tx.set_at(b"k", b"B", 10).unwrap();
+				tx.soft_delete_with_options(b"d", &WriteOptions::default().with_timestamp(Some(10))).unwrap();
+				tx.commit().await.unwrap();
+			}
+			let tx = tree.begin().unwrap();
+			assert_eq!(tx.get(b"k").unwrap().as_deref(), Some(&b"B"[..]), "precondition: the current value is B");
+			assert_eq!(tx.get(b"d").unwrap(), None, "precondition: d is deleted");
+			let k = tx.get_at(b"k", 10).unwrap().map(|v| String::from_utf8_lossy(&v).to_string());
+			let dd = tx.get_at(b"d", 10).unwrap().map(|v| String::from_utf8_lossy(&v).to_string());
+			println!("D43 index={with_index} flush_between={flush_between}: get_at(k,10)={k:?} get_at(d,10)={dd:?}");
+			assert_eq!(dd, None, "D43: index={with_index} flush_between={flush_between}: a key deleted at timestamp 10 reads back its old value at T = 10");
+			assert_eq!(k.as_deref(), Some("B"), "D43: index={with_index} flush_between={flush_between}: get_at returns the overwritten version");
+		}
+	}
+}
